@@ -191,7 +191,7 @@ func rqRun(which string) func(c *core.Ctx) {
 							cs := rqCase{ts.Name, td.Name, []int64{a}, chs, pos, lens}
 							fs := rqEvalCase(which, cs)
 							if len(fs) == 0 {
-								c.InternalError("%s: failure %s at amplitude %d (channels %d, position %d) seen in the sweep does not reproduce in isolation", name, kind, a, p.Ch, p.Idx)
+								fs = []F{histDep(name, fmt.Sprintf("%s: failure %s at amplitude %d (channels %d, position %d) seen in the sweep does not reproduce in isolation", name, kind, a, p.Ch, p.Idx))}
 							}
 							c.Fail(cs, fs...)
 						}
@@ -205,7 +205,7 @@ func rqRun(which string) func(c *core.Ctx) {
 							cs := rqCase{ts.Name, td.Name, []int64{pi, in}, chs, pos, lens}
 							fs := rqEvalCase(which, cs)
 							if len(fs) == 0 {
-								c.InternalError("%s: order violation %d->%d, %d->%d seen in the sweep does not reproduce in isolation", name, pi, po, in, out)
+								fs = []F{histDep(name, fmt.Sprintf("%s: order violation %d->%d, %d->%d seen in the sweep does not reproduce in isolation", name, pi, po, in, out))}
 							}
 							c.Fail(cs, fs...)
 						}
